@@ -608,6 +608,12 @@ impl<'a> Ctx<'a> {
         }
         self.rep.count(&format!("files:schema={},operations={}", case.schema_files.len(), case.op_files.len()));
         self.rep.count(&format!("mode:{}", case.mode));
+        if !case.faults.is_empty() && case.schema_files.iter().chain(case.op_files.iter()).any(|(_, t)| !t.is_ascii()) {
+            self.rep.count("feature:non-ascii-text-before-a-faulty-token");
+        }
+        if case.faults.iter().any(|f| f.kind.starts_with("copy-paste")) {
+            self.rep.count("feature:copy-pasted-fault-in-several-files");
+        }
         self.rep.count(&format!(
             "outputs:schema={},server={},resolvers={}",
             case.schema_output.is_some(),
@@ -978,6 +984,22 @@ impl<'a> Ctx<'a> {
 // ---------------------------------------------------------------------------------------------
 // generation
 
+/// non-ASCII text (CJK, astral, accented) that is put on the SAME line before the offending token: columns are
+/// code points (as pest reports them), so the reported position must still be the token's start
+fn schema_pad(n: usize) -> String {
+    format!("\"日本語 😀 Größe\" enum Pad{n} {{ A }} ")
+}
+fn op_pad(n: usize) -> String {
+    format!("query Pad{n}($s: String = \"日本語 😀 Größe\") {{ __typename }} ")
+}
+/// put `pad` in front of the fault text and join the fault's lines into one, so that the offending token follows it
+fn pad_fault(text: &str, pad: &str) -> String {
+    let lead: String = text.chars().take_while(|c| *c == '\n').collect();
+    let body = text[lead.len()..].trim_end_matches('\n');
+    let trail = &text[lead.len() + body.len()..];
+    format!("{lead}{pad}{}{trail}", body.replace('\n', " "))
+}
+
 fn schema_fault(rng: &mut Rng, n: usize, own_types: &[(String, nvh::gm::TypeKind)]) -> (String, String, String) {
     // (kind, stage, text appended to the file)
     match rng.below(8) {
@@ -1069,17 +1091,26 @@ fn gen_case(rng: &mut Rng, want_faults: usize) -> Case {
     .into_iter()
     .map(|s| s.to_string())
     .collect();
+    let mut non_ascii = false;
     for n in 0..want_faults {
         let choice = rng.below(10);
         if choice < 4 {
             let i = rng.below(schema_files.len());
-            let (kind, stage, text) = schema_fault(rng, n, &own_types[i]);
+            let (kind, stage, mut text) = schema_fault(rng, n, &own_types[i]);
+            if rng.coin() {
+                text = pad_fault(&text, &schema_pad(n));
+                non_ascii = true;
+            }
             schema_files[i].1.push_str(&text);
             faults.push(Fault { kind, file: schema_files[i].0.clone(), stage });
         } else if choice < 8 {
             let j = rng.below(op_files.len());
             let other = if op_files.len() > 1 { Some(format!("o{}.graphql", (j + 1) % op_files.len())) } else { None };
-            let (kind, stage, text, prepend) = op_fault(rng, n, other.as_deref());
+            let (kind, stage, mut text, prepend) = op_fault(rng, n, other.as_deref());
+            if rng.coin() {
+                text = pad_fault(&text, &op_pad(n));
+                non_ascii = true;
+            }
             if prepend {
                 op_files[j].1 = format!("{text}{}", op_files[j].1);
             } else {
@@ -1118,6 +1149,43 @@ fn gen_case(rng: &mut Rng, want_faults: usize) -> Case {
             }
         }
     }
+    // copy-paste: the SAME fault text at the SAME (line, column) in two or three operation files / two schema files
+    if want_faults > 0 && op_files.len() >= 2 && rng.chance(1, 3) {
+        let (kind, body) = match rng.below(5) {
+            0 => ("unknown-field", "query FaultCP { nopeFieldCP }".to_string()),
+            1 => ("unknown-directive", "query FaultCP { __typename @nopeCP }".to_string()),
+            2 => ("unknown-type", "query FaultCP($v: NopeTypeCP) { __typename }".to_string()),
+            3 => ("unknown-fragment", "query FaultCP { ...NopeFragCP }".to_string()),
+            _ => ("wrong-directive-location", "query FaultCP @skip(if: true) { __typename }".to_string()),
+        };
+        let pad = if rng.coin() {
+            non_ascii = true;
+            op_pad(90)
+        } else {
+            String::new()
+        };
+        let mut idx: Vec<usize> = (0..op_files.len()).collect();
+        rng.shuffle(&mut idx);
+        let k = 2 + rng.below(2).min(op_files.len() - 2);
+        for &j in idx.iter().take(k) {
+            op_files[j].1 = format!("{pad}{body}\n{}", op_files[j].1);
+            faults.push(Fault { kind: format!("copy-paste-{kind}"), file: op_files[j].0.clone(), stage: "op-check".into() });
+        }
+    }
+    if want_faults > 0 && schema_files.len() >= 2 && rng.chance(1, 5) {
+        let pad = if rng.coin() {
+            non_ascii = true;
+            "\"日本語 😀 Größe\" ".to_string()
+        } else {
+            String::new()
+        };
+        for (k, i) in [0usize, 1].iter().enumerate() {
+            let name = ["CpA", "CpB"][k];
+            schema_files[*i].1 = format!("type {name} {{ {pad}f: NopeTypeCP }}\n{}", schema_files[*i].1);
+            faults.push(Fault { kind: "copy-paste-unknown-type".into(), file: schema_files[*i].0.clone(), stage: "schema-check".into() });
+        }
+    }
+    let _ = non_ascii;
     let schema_output = if faults.iter().any(|f| f.kind == "no-schema-output") { None } else { schema_output };
     let mut outputs: Vec<(&str, &str)> = vec![];
     if let Some(o) = &schema_output {
@@ -1191,6 +1259,19 @@ fn corpus() -> Vec<Case> {
         // extension-stage fault hides import and check faults (open findings)
         base(vec![s0, s1], vec![("ops/o0.graphql", "#import * * from \"./o1.graphql\"\nquery Q0 { me { id } }\n"), ("ops/o1.graphql", "#import F from \"./missing.graphql\"\nquery Q1 { me { id } }\n"), ("ops/o2.graphql", "query Q2 { me { zzz } }\n")], vec!["check"],
             vec![("wildcard-twice", "ops/o0.graphql", "op-ext"), ("dangling-import", "ops/o1.graphql", "op-import"), ("unknown-field", "ops/o2.graphql", "op-check")]),
+        // copy-pasted query with the same misspelt field at the same line/column in two files: both files are named
+        base(vec![s0, s1], vec![("ops/o0.graphql", "query Q { me { id nam } }\n"), ("ops/o1.graphql", "query Q { me { id nam } }\n"), ("ops/o2.graphql", "query Q2 { me { id } }\n")], vec!["check"],
+            vec![("copy-paste-unknown-field", "ops/o0.graphql", "op-check"), ("copy-paste-unknown-field", "ops/o1.graphql", "op-check")]),
+        // the same unknown type at the same line/column of two schema files
+        base(vec![("schema/s0.graphql", "type Query { me: User! a: Intt }\n"), ("schema/s1.graphql", "type User { id: ID!   a: Intt }\n")], vec![o0], vec!["check"],
+            vec![("copy-paste-unknown-type", "schema/s0.graphql", "schema-check"), ("copy-paste-unknown-type", "schema/s1.graphql", "schema-check")]),
+        // non-ASCII text (CJK, accented, astral) before the offending token on its line: columns count code points
+        base(vec![s0, s1], vec![("ops/o0.graphql", "query Q0($n: String = \"日本語\") { me { id nam } }\n"), ("ops/o1.graphql", "query Q1($n: String = \"😀 Größe\") {\n  me { id } }   query Q2($m: String = \"é😀\") { me { ...Nope } }\n")], vec!["check"],
+            vec![("unknown-field", "ops/o0.graphql", "op-check"), ("unknown-fragment", "ops/o1.graphql", "op-check")]),
+        base(vec![s0, ("schema/s1.graphql", "type User { id: ID! name: String \"Größe 日本語 😀\" size: Intt }\n")], vec![o0], vec!["check", "generate"],
+            vec![("unknown-type", "schema/s1.graphql", "schema-check")]),
+        base(vec![s0, s1], vec![("ops/o0.graphql", "query Pad($s: String = \"日本語 😀\") { __typename } #import F from \"./missing.graphql\"\nquery Q0 { me { id } }\n")], vec!["check"],
+            vec![("dangling-import", "ops/o0.graphql", "op-import")]),
         // a file importing from a file whose own import fails is not named (open finding)
         base(vec![s0, s1], vec![("ops/o0.graphql", "#import A from \"./o1.graphql\"\nquery Q0 { me { id } }\n"), ("ops/o1.graphql", "#import B from \"./o2.graphql\"\nquery Q1 { me { id } }\n"), ("ops/o2.graphql", "query Q2 { me { id } }\n")], vec!["check"],
             vec![("missing-fragment", "ops/o0.graphql", "op-import"), ("missing-fragment", "ops/o1.graphql", "op-import")]),
